@@ -48,7 +48,7 @@ def replay(ctx, ob, inputs):
     return 'inconclusive', 'inputs %r: exit %d\n%s' % (shown, p.returncode, out[-1000:])
 
 
-def run_program(ctx, name, src, extra_sources=(), defines=(), timeout=30):
+def run_program(ctx, name, src, extra_sources=(), defines=(), timeout=30, args=()):
     """compile a fixed native reproducer against the real sources of the working tree and run it.
     verdict 'reproduced' when it fails (non-zero exit, signal or time-out)."""
     wd = os.path.join(ctx.scratch, 'native_' + name)
@@ -60,10 +60,10 @@ def run_program(ctx, name, src, extra_sources=(), defines=(), timeout=30):
     if p.returncode != 0:
         return 'error', 'native build failed:\n' + p.stdout.decode()[-2000:]
     try:
-        p = subprocess.run([exe], stdout=subprocess.PIPE, stderr=subprocess.STDOUT, timeout=timeout)
+        p = subprocess.run([exe] + [str(a) for a in args], stdout=subprocess.PIPE, stderr=subprocess.STDOUT, timeout=timeout)
     except subprocess.TimeoutExpired:
-        return 'reproduced', 'native program %s did not terminate within %d s' % (src, timeout)
+        return 'reproduced', 'native program %s %s did not terminate within %d s' % (src, list(args), timeout)
     out = p.stdout.decode('utf-8', 'replace')
     if p.returncode == 0:
         return 'not-reproduced', out[-1500:]
-    return 'reproduced', 'native program %s: exit %d%s\n%s' % (src, p.returncode, ' (killed by signal %d)' % -p.returncode if p.returncode < 0 else '', out[-1500:])
+    return 'reproduced', 'native program %s %s: exit %d%s\n%s' % (src, list(args), p.returncode, ' (killed by signal %d)' % -p.returncode if p.returncode < 0 else '', out[-1500:])
